@@ -3,6 +3,7 @@ package main
 import (
 	"fmt"
 	"os"
+	"runtime"
 	"go/constant"
 	"go/token"
 	"go/types"
@@ -225,6 +226,7 @@ func (w *Worker) cut(st *State, why string) {
 }
 
 var debugCuts = false
+var strictEngine = os.Getenv("SYMEX_STRICT") != ""
 var noIfConvFlag = os.Getenv("SYMEX_NOIFCONV") != ""
 
 func (st *State) stack() []string {
@@ -263,6 +265,11 @@ func (w *Worker) runPath(st *State) {
 			e.res.mu.Unlock()
 			w.pathDone(st)
 		default:
+			if re, isRT := r.(runtime.Error); isRT && !strictEngine {
+				// a value of an unexpected shape reached an instruction: unsupported, cut the path
+				w.cut(st, "engine: unsupported value shape ("+re.Error()+")")
+				return
+			}
 			fmt.Printf("ENGINE PANIC in %s: %v\n  at %s\n", e.res.Name, r, strings.Join(st.stack(), "\n     "))
 			panic(r)
 		}
@@ -700,6 +707,9 @@ func (w *Worker) exec(st *State, f *Frame, in ssa.Instruction) bool {
 		fn, args := w.resolveCallee(st, f, cc)
 		if fn == nil {
 			// builtin deferred (e.g. recover/print/close): ignore close/print
+			return true
+		}
+		if isNopCallee(fn) {
 			return true
 		}
 		f.defers = append(f.defers, deferred{fn: fn, args: args})
